@@ -71,6 +71,8 @@ func genCase(engine, mode, tier string, r *Rng, id string, i int) []string {
 		default:
 			return []string{genCsvImport(r).Line(id, "CSV")}
 		}
+	case "sqlw":
+		return genSqlw(r, id, mode)
 	case "grp":
 		return []string{genGrp(r, tier).Line(id, "GRP")}
 	}
